@@ -85,4 +85,9 @@ var Families = []string{
 	`try { throw 1 } catch { log("optional catch binding") } var big = 10n * 3n; log(typeof big, 1_000_000, 0b1010, 0o17, [1, [2, [3]]].length);`,
 	`var o = { __proto__: { inherited() { return "inh"; } }, m() { return super.inherited(); } }; log(o.m()); function F() { return new.target === F; } log(new F() instanceof F, F());`,
 	`log(/(?<year>\d{4})-(?<m>\d\d)/.exec("2020-12").groups.year, /a.b/s.test("a\nb"), /(?<=\$)\d+/.exec("$42")[0], /\p{Lu}/u.test("É"), "aXbX".replace(/x/gi, "-"));`,
+	// ---- shapes that the minifier rewrites into NEWER syntax when the target allows it (C14: only then)
+	`function g1(a, x) { return a != null ? a.b : undefined; } function g2(a, x) { return a == null ? void 0 : a.b.c[x](1); } function g3(a, b) { return a != null ? a : b; } function g4(a, b) { return a === null || a === undefined ? b : a; } log(g1({ b: 1 }), g1(null), g2(undefined, 0), g3(null, 2), g3(0, 2), g4(undefined, 3));`,
+	`function h1(a, b) { if (a == null) a = b; return a; } function h2(o, b) { o.x || (o.x = b); o.y && (o.y = b); o.z ?? (o.z = b); return o; } function h3(a) { a && a.f && a.f(); return a != null && a.b(); } log(h1(null, 1), h1(0, 1), h2({ x: 0, y: 1, z: null }, 9), h3(null), h3({ f() { log("f"); }, b() { return "b"; } }));`,
+	`var s1 = "a" + p(1, "x") + "b" + p(2, 1) + "c"; var s2 = function (x) { return x * 2; }; var s3 = { f: function () { return this === s3; }, g: function g() { return 1; } }; var pow = Math.pow(p(3, 2), 3); log(s1, s2(2), s3.f(), s3.g(), pow, typeof s1 === "undefined", s1 === void 0);`,
+	`function k1(o) { return o === null || o === void 0 ? void 0 : o.a; } function k2(o) { var t; return (t = o) === null || t === void 0 ? void 0 : t.a.b; } function k3(a, b) { return a !== null && a !== void 0 ? a : b; } log(k1({ a: 1 }), k1(null), k2({ a: { b: 2 } }), k2(undefined), k3(null, 3), k3(false, 3));`,
 }
